@@ -11,9 +11,8 @@ Campaign (implementation in worker processes, model inside Coq through Corr/C14J
     hang or crash the process.
   * rewritten archives from which every non-empty subset of the members was removed -> the load must raise.
 The former findings D9 (1-d / 0-d GCXS, CSR / CSC), the damaged-file hole (a36d130) and the optional compressed_axes
-member (19bbdac) were repaired in /repo: they have no clause any more, any recurrence is a NEW violation.  Violations
-of the remaining known kinds carry the name of the failed domain clause (NB_shape_fits_coords_dtype,
-NB_construct_shape_type); everything else is reported without clause as a new violation."""
+member (19bbdac) and the Numba shape type (eb8a9b8) were repaired in /repo: no domain clause is left, any recurrence
+is a NEW violation (reported without clause)."""
 import itertools
 import json
 import os
@@ -57,7 +56,7 @@ ASSUMPTIONS = [
 
 DTYPES = ["int8", "int16", "int32", "int64", "uint8", "uint16", "uint32", "uint64",
           "float32", "float64", "complex64", "complex128", "bool"]
-CLAUSES = {2: "NB_shape_fits_coords_dtype", 3: "NB_construct_shape_type"}
+CLAUSES = {}
 MEMBERS = ["data", "shape", "fill_value", "coords", "indices", "indptr", "compressed_axes"]
 KCODE = {"COO": 0, "GCXS": 1, "CSR": 2, "CSC": 3}
 EXC_CODE = {"ValueError": 1, "RuntimeError": 2, "TypeError": 3, "IndexError": 4}
@@ -404,13 +403,14 @@ def _w(fmt, shape, dense, axes):
     return {"fmt": fmt, "shape": shape, "axes": axes, "pattern": "dense", "dense": dense, "dtype": "int64", "fill": "0", "seed": 0}
 
 
-WITNESSES = [
-    ("numba_boxing_roundtrip_refuted",
-     {"fmt": "coo", "shape": [300], "axes": None, "pattern": "raw", "dtype": "int64", "fill": "0", "seed": 0,
-      "raw": {"idx": "int8", "coords": [[0, 1]], "data": [5, 6]}}, "numba_identity", 12),
-    ("numba_construct_refuted",
-     {"fmt": "coo", "shape": [], "axes": None, "pattern": "raw", "dtype": "int64", "fill": "0", "seed": 0,
-      "raw": {"idx": "int64", "coords": [], "data": [7]}}, "numba_construct", 13),
+# no ..._refuted theorem is left: nothing to replay
+WITNESSES = []
+# the former Numba counter-examples, now ordinary in-domain cases
+FORMER_NB = [
+    {"fmt": "coo", "shape": [300], "axes": None, "pattern": "raw", "dtype": "int64", "fill": "0", "seed": 0,
+     "raw": {"idx": "int8", "coords": [[0, 1]], "data": [5, 6]}},
+    {"fmt": "coo", "shape": [], "axes": None, "pattern": "raw", "dtype": "int64", "fill": "0", "seed": 0,
+     "raw": {"idx": "int64", "coords": [], "data": [7]}},
 ]
 # arrays of the former D9 witnesses (now inside the proved domain) are kept as ordinary cases
 FORMER_D9 = [_w("gcxs", [6], [0, 5, 6, 0, 0, 0], None), _w("csr", [2, 3], [[0, 5, 0], [0, 0, 6]], [0]),
@@ -495,15 +495,17 @@ def gen_numba_specs(tier, rng, specs):
         out.append(s)
         if len(out) >= limit:
             break
-    # narrow coordinate dtypes with extents around the width of the dtype (clause NB_shape_fits_coords_dtype)
+    # narrow coordinate dtypes with extents around and beyond the width of the dtype (ordinary cases since eb8a9b8)
     raw = [("int8", [127], [[0, 100]]), ("int8", [128], [[0, 100]]), ("int8", [200], [[0, 100]]), ("int8", [300], [[0, 1]]),
            ("int8", [300], [[0, 100]]), ("int8", [256], [[]]), ("uint8", [255], [[0, 254]]), ("uint8", [256], [[0, 255]]),
            ("uint8", [300], [[0, 3]]), ("uint8", [256], [[]]), ("int16", [3, 40000], [[0, 2], [5, 30000]]),
            ("int16", [2, 32767], [[0, 1], [5, 30000]]), ("uint16", [65536, 2], [[0, 70], [0, 1]]),
-           ("int32", [5, 7], [[0, 4], [1, 6]]), ("uint64", [5, 7], [[0, 4], [1, 6]]), ("int8", [2, 3, 300], [[0, 1], [1, 2], [0, 9]])]
+           ("int32", [5, 7], [[0, 4], [1, 6]]), ("uint64", [5, 7], [[0, 4], [1, 6]]), ("int8", [2, 3, 300], [[0, 1], [1, 2], [0, 9]]),
+           ("int16", [70000], [[0, 32767]]), ("uint8", [1000, 2], [[0, 255], [1, 0]]), ("int8", [128, 129, 2], [[0, 127], [5, 127], [0, 1]]),
+           ("uint16", [2, 100000], [[0, 1], [3, 65535]]), ("int32", [3000000000], [[0, 2147483647]])]
     for pat in ("empty", "full"):
         out.append({"fmt": "coo", "shape": [], "axes": None, "pattern": pat, "dtype": "int64", "fill": "0", "seed": 11})
-    out.extend(w[1] for w in WITNESSES if w[2].startswith("numba"))
+    out.extend(FORMER_NB)
     for idx, shape, coords in raw:
         n = len(coords[0])
         out.append({"fmt": "coo", "shape": shape, "axes": None, "pattern": "raw", "dtype": "int64", "fill": "0", "seed": 0,
